@@ -20,6 +20,16 @@ def gen_root_contexts(ch: Choices) -> tuple[dict, dict]:
                 out["n"]["q"] = 40 + ch.choice(3, tag + "-nqv")
         if ch.coin(0.2, tag + "-m"):
             out["m"] = {"r": {"s": 50 + ch.choice(3, tag + "-ms")}}
+        if tag == "run" and ch.coin(0.3, tag + "-falsy"):
+            # the run() context overrides the configured one also with falsy values
+            key = ["x", "n", "m"][ch.choice(3, tag + "-falsy-key")]
+            fv = [0, False, None, ""][ch.choice(4, tag + "-falsy-val")]
+            if key == "x" or ch.coin(0.3, tag + "-falsy-whole"):
+                out[key] = fv
+            elif key == "n":
+                out["n"] = {"p": fv}
+            else:
+                out["m"] = {"r": {"s": fv}}
         return out
 
     return one("cfg"), one("run")
